@@ -61,3 +61,14 @@ Theorem C07_er_volatility_def : forall p h x, ger_vol p h x =
   (if (length h <? p)%nat then fst (er_vol_loop FOps (0%float, hd 0%float h) (h ++ x :: nil))
    else fst (er_vol_loop FOps (0%float, hd 0%float (Ring.lastn (S p) (h ++ x :: nil))) (tl (Ring.lastn (S p) (h ++ x :: nil))))).
 Proof. reflexivity. Qed.
+
+(* ---- binary64: RelativeStrengthIndex is NaN (0/0: both averages exactly zero, known finding K4's case) or a finite number in
+        [0, 100 + 300 * 2^-53] — far inside the property's 1e-9 slack: the two averages are float EMAs of non-negative moves, hence
+        finite and >= 0 (Proofs/FloatKc.v), the sum dominates the up-average by monotone rounding, and 100 * U rounds with a purely
+        relative error (exact in the subnormal range). Streams of any length, periods < 2^45, finite inputs up to 2^900 ---- *)
+From Flocq Require Import BinarySingleNaN PrimFloat.
+From TA Require Import Proofs.Osc Proofs.FloatRsi.
+Theorem C07_rsi_binary64_range : forall p s xs M, rsi_new FOps p = Ok s -> (p < 35184372088832)%N ->
+  (1 <= M)%R -> (M <= bpow radix2 900)%R -> Forall (okin M) xs ->
+  Forall (fun o => Prim2B o = B754_nan \/ (finF o /\ (0 <= FR o <= 100 + 300 * u)%R)) (rsi_outs FOps s xs).
+Proof. exact rsi_float_range. Qed.
